@@ -42,7 +42,8 @@ def build(tree, S, protos):
 
 
 def yser(lo, hi):
-    return pd.Series([1000.0 + t for t in range(lo, hi + 1)], index=pd.RangeIndex(lo, hi + 1))
+    o = stubs.C09_ORIGIN[0]         # integer labels need not start at 0: the composites work by position
+    return pd.Series([1000.0 + t for t in range(lo, hi + 1)], index=pd.RangeIndex(lo + o, hi + 1 + o))
 
 
 def norm_events(log):
@@ -57,6 +58,7 @@ def observe(cfg, variant=0):
     S = stubs.make_compose_stubs()
     stubs.reset(TAG)
     stubs.reset("c09meta")
+    stubs.C09_ORIGIN[0] = [0, 12, -5][variant % 3]
     protos = []
     try:
         f = build(cfg["tree"], S, protos)
@@ -71,7 +73,7 @@ def observe(cfg, variant=0):
         p = f.predict()
         events = norm_events(stubs.LOG[TAG])
         ret = [rational(float(v)) or [] for v in p.values]
-        o = {"events": events, "ret": ret, "index": [int(i) for i in p.index],
+        o = {"events": events, "ret": ret, "index": [int(i) - stubs.C09_ORIGIN[0] for i in p.index],
              "protos_unfitted": all(not getattr(x, "_is_fitted", False) for x in protos)}
         # independence: a second composite built from the SAME prototype objects, fitted on other data,
         # must not disturb the first one
@@ -117,7 +119,7 @@ def run(ctx):
         kinds.add(cfg["tree"]["kind"])
         obs = observe(cfg, i)
         ctx.evaluations += 1
-        sc = {"cfg": cfg, "variant": i % 2}
+        sc = {"cfg": cfg, "variant": i % 6}
         if "crash" in obs:
             ctx.violation(sc, "crash: " + obs["crash"])
             continue
@@ -139,7 +141,7 @@ def run(ctx):
     ctx.traces += len(sub) - len(rejects)
     for rec in sub:
         if rec["tid"] in rejects:
-            ctx.violation({"cfg": rec["cfg"], "variant": rec["tid"] % 2},
+            ctx.violation({"cfg": rec["cfg"], "variant": rec["tid"] % 6},
                           "code->spec: TLC rejects recorded composite run, clause %s" % rejects[rec["tid"]])
     return ctx.finish(
         rule="TLC enumerates composition trees (ensembles with 4 aggregates, pipelines with 1-2 transformers "
